@@ -1,8 +1,8 @@
 from vlib.driver import Job
 
 REL, PKG, H = "shiftdfa", "shiftdfa", "c24_shift.go"
-NSETS = 16
-BIG = {0, 3, 13}       # 9-10 DFA states: 64-bit variable shifts over a 256-entry table make these queries slow
+NSETS = 20
+BIG = {0, 3, 13, 17, 18}       # 9-10 DFA states: 64-bit variable shifts over a 256-entry table make these queries slow
 
 
 def jobs(ctx):
@@ -21,14 +21,14 @@ def jobs(ctx):
 
 def describe(ctx):
     return {
-        "explanation": "For each rule set of a 16-member byte-mode corpus (the four sets of shiftdfa_test.go, sets with classes over 0x80-0xff, multi-byte "
+        "explanation": "For each rule set of a 20-member byte-mode corpus (the four sets of shiftdfa_test.go, sets with classes over 0x80-0xff, multi-byte "
                        "literals, bounded repetition, alternation, case-insensitive groups; some are rejected by the packer by design) the real lex.ParseRegexp, "
                        "lex.Compile and shiftdfa.Pack run concretely inside the executor; then (a) Scanner.Scan and Tables.Scan are executed on the same "
                        "symbolic byte string and must return the same size and token, (b) one step of the packed table is compared with the Dfa/SymbolMap "
                        "for a symbolic byte and every DFA state, and onEoi with the end-of-input column. (b) plus the loop arithmetic exercised in (a) "
                        "gives agreement for inputs of any length by induction on the input.",
         "bounds": {"input length": "quick n<=4 (n<=3 for the 9-10 state automata); thorough n<=6 (5)", "bytes": "all 256 values per position",
-                   "rule sets": "16 corpus members (listed in harness/c24_shift.go)"},
+                   "rule sets": "20 corpus members (listed in harness/c24_shift.go)"},
         "outside": ["rule sets outside the corpus", "bounded runs longer than n (covered only through the one-step relation)"],
         "trusted": ["go/ssa", "symgo executor", "z3", "the induction argument connecting the one-step relation to Scan's loop"],
         "assumptions": ["Tables.Scan is the reference the statement names; its own correctness is C09"],
